@@ -83,14 +83,20 @@ def _tz(pendulum, z):
 
 
 def _foreign_receivers(pendulum, z, x, x_f, x_o):
-    """The state x carried by tzinfo objects that are not pendulum timezones (same fields, fold and offset)."""
-    import zoneinfo
+    """The state x carried by tzinfo objects that are not pendulum timezones (same fields, fold and offset):
+    (kind, zone the result is expected in, receiver).  A zoneinfo object is mapped to the named zone; a stdlib
+    fixed offset (with or without a name shared by other offsets) and a DST-aware tzinfo without a key can only be
+    kept as the offset in force at the value."""
+    from .. import foreign
     out = []
     if isinstance(z, int):
-        out.append(("stdlib-timezone", z, pendulum.DateTime(*x_f, tzinfo=dt_.timezone(dt_.timedelta(seconds=z)))))
+        out.append(("stdlib-timezone", z, pendulum.DateTime(*x_f, tzinfo=foreign.fixed(z))))
+        out.append(("stdlib-named", z, pendulum.DateTime(*x_f, tzinfo=foreign.named_fixed(z))))
     else:
-        out.append(("zoneinfo", z, pendulum.DateTime(*x_f, tzinfo=zoneinfo.ZoneInfo(z), fold=x.fold)))
-        out.append(("stdlib-timezone", x_o, pendulum.DateTime(*x_f, tzinfo=dt_.timezone(dt_.timedelta(seconds=x_o)))))
+        out.append(("zoneinfo", z, pendulum.DateTime(*x_f, tzinfo=foreign.zi(z), fold=x.fold)))
+        out.append(("stdlib-timezone", x_o, pendulum.DateTime(*x_f, tzinfo=foreign.fixed(x_o))))
+        out.append(("stdlib-named", x_o, pendulum.DateTime(*x_f, tzinfo=foreign.named_fixed(x_o))))
+        out.append(("keyless-dst-tzinfo", x_o, pendulum.DateTime(*x_f, tzinfo=foreign.keyless(z), fold=x.fold)))
     return [(n, fz, f) for n, fz, f in out if obs.offset_s(f) == x_o]
 
 
